@@ -10,6 +10,10 @@ CHECKS = {
          "DESIGN.md 4/C01",
          "Every program of <= n nodes of five driver grammars (control structure, primitives, anchors, naming/recursion/predicates, reduced-deeper) crossed with every text over a small alphabet up to length 5 is compiled and run by the real engine; the reported spans must equal those of the reference matcher R. Coverage statement, not a sample: no program/text pair inside the stated bounds violates C01.",
          "Trusted: reference matcher vmc/ref.go (documented semantics), Go toolchain. Open: programs larger than the node bound, longer / non-ASCII texts."),
+ "C02": ("exploration", "bounded-exhaustive enumeration of capture programs x texts; variables compared with the reference matcher's final environment",
+         "DESIGN.md 4/C02",
+         "Every program with captures/back-references of <= n nodes (captures under alternation, optional and repeated groups incl. min>=1 loops, inline subroutines, calls, pattern globals) crossed with every text over {a,b} up to length 5: the spans and the complete set of string variables of every reported match must equal the bindings of the successful path computed by the reference matcher, whose environment is persistent (an abandoned path cannot leak by construction).",
+         "Trusted: reference matcher vmc/ref.go. Named-loop maps are not compared here."),
 }
 
 PENDING_REASON = "check not built yet in this round of work (framework is being extended property by property; see DESIGN.md section 7)"
